@@ -71,7 +71,7 @@ theorem tensorInit_ok {track : Bool} {s : Src} {dtype : Option DTy} {c : CArg} {
       exact ⟨k, hk, by intro e; apply hn; simp [e], hr.symm⟩
 
 theorem passView_ok {track : Bool} {s : Src} {r : Res} (h : passView track s = .ok r) :
-    ∃ k, gate track s.dt (if track && s.ts.const then CArg.t else CArg.none) = .ok k ∧
+    ∃ k, gate track s.dt (if s.ts.const then CArg.t else CArg.f) = .ok k ∧
       r = { ident := .shares, dt := s.dt, const := k, hasCreator := track
             hasGrad := track && s.ts.hasGrad, hasBase := track, extended := true } := by
   obtain ⟨k, hk, hr⟩ := map_ok h
